@@ -45,7 +45,7 @@ type stats struct {
 }
 
 // replay drives one fresh scheduler through one behaviour and leaves one trace (Reset .. End).
-func replay(t *rt.Trace, lane int, name string, beh []step, coord bool, rng *rand.Rand, st *stats) {
+func replay(t *rt.Trace, lane int, name string, beh []step, coord, panicFirst bool, rng *rand.Rand, st *stats) {
 	if len(beh) == 0 || beh[0].A != "Init" {
 		rt.Fatalf("c17: behaviour %s does not start with Init", name)
 	}
@@ -156,7 +156,16 @@ steps:
 			y.mu.Lock()
 			g.released = true
 			y.mu.Unlock()
-			g.ch <- s.Res
+			res := s.Res
+			if !y.panicked && panicFirst {
+				// every other behaviour lets its first execution end with a panic, whatever the generator chose:
+				// the executor-panic path is reached on every lane and worker position in every run
+				res = "panic"
+			}
+			if res == "panic" {
+				y.panicked = true
+			}
+			g.ch <- res
 			y.waitFor(fmt.Sprintf("checkpoint after Execute(%d,%d) [%s step %d]", s.ID, s.Occ, name, i+1), func() bool {
 				for _, c := range y.ckpts {
 					if !c.used && c.id == s.ID && c.occ == s.Occ {
@@ -166,7 +175,7 @@ steps:
 				return false
 			}, nil)
 			time.Sleep(150 * time.Microsecond)
-			y.smu.Unlock()
+			y.unlockSched()
 		case "Ckpt":
 			y.waitFor(fmt.Sprintf("UpdateLastScheduled(%d,%d) [%s step %d]", s.ID, s.Occ, name, i+1), func() bool {
 				for _, c := range y.ckpts {
@@ -393,7 +402,7 @@ func Run(r *rt.Run) error {
 					if race > 0 && i%race == race-1 {
 						replayRace(traces[l], l, names[i], behs[i], i%3 == 1, rng, sts[l])
 					} else {
-						replay(traces[l], l, names[i], behs[i], i%3 == 1, rng, sts[l])
+						replay(traces[l], l, names[i], behs[i], i%3 == 1, (i/lanes)%2 == 0, rng, sts[l])
 					}
 				}); msg != "" {
 					stuckMu.Lock()
